@@ -20,9 +20,9 @@ LEVEL = 'exploration'
 TECHNIQUE = 'trace-specification checker (regular expression over captured lineage events + outcome comparison) on real Filter.run executions with the real heartbeat thread, endings from the lifecycle injection matrix'
 RULE = ('endings {exit()/exception/stop event at setup, process #k, deferred result, shutdown; external stop event; '
         'propagated clean and error exits obeyed from neighbours; init failure} x heartbeat interval {longer than the run, '
-        'about the run, much shorter} x seeds; every filter of the pipeline that ends is judged; non-trivial = run with >=1 '
+        'about the run, much shorter} x lineage transport {healthy, failing after delivery on START / RUNNING / terminal / every event} x seeds; every filter of the pipeline that ends is judged; non-trivial = run with >=1 '
         'event captured; distinct = (ending class of that filter, interval class, terminal seen)')
-ASSUMPTIONS = ['for an obeyed propagated ERROR (run() returns normally although the pipeline failed) either terminal kind is accepted',
+ASSUMPTIONS = ['a failing lineage transport fails AFTER the backend received the event (a lost event would be missing from any history)', 'for an obeyed propagated ERROR (run() returns normally although the pipeline failed) either terminal kind is accepted',
                'filters unwound by the harness at the end of a scenario (never ended by themselves) are not judged',
                'a fixed number of heartbeats is not demanded']
 EXHAUSTIVE = None
@@ -65,6 +65,8 @@ def judge(w, scn, res):
         swallowed_error = clean and any(e['node'] == node and e['ev'] == 'inject' for e in []) 
         res.nontrivial(f'{ending}|{scn["lineage"]["cls"]}|{term}')
         res.count('terminal:' + term)
+        if scn['lineage'].get('client_fault'):
+            res.count('runs_with_failing_lineage_transport')
         if clean and term != 'COMPLETE':
             if propagated_error_possible(scn, node):
                 res.count('either_terminal_accepted_for_obeyed_error')
@@ -103,7 +105,8 @@ def ending_class(scn, node, end):
 def gen(rng, seed):
     scn = c08.gen_case(rng, seed)
     cls = rng.choice(['long', 'about', 'short'])
-    scn['lineage'] = {'interval_s': {'long': 10, 'about': 0.02, 'short': 0.001}[cls], 'cls': cls}
+    scn['lineage'] = {'interval_s': {'long': 10, 'about': 0.02, 'short': 0.001}[cls], 'cls': cls,
+                      'client_fault': rng.choice([None, None, None, 'terminal', 'start', 'running', 'every'])}
     scn['until_ms'] = 6000
     return scn
 
